@@ -341,4 +341,113 @@ def exSt : RSt :=
 example : ((exSt.publish 2 exEv).1.q, (exSt.publish 2 exEv).2) =
     ([(0, [.event "a" exEv]), (1, [.event "z" exEv])], .ok ()) := by decide
 
+/-- a connection's subscription ids are distinct (Go map keys) -/
+def SubsOK (st : RSt) : Prop := ∀ c subs, nGet st.reg c = some subs → (subs.map Prod.fst).Nodup
+
+theorem alSet_keys_nodup {β} (l : List (String × β)) (k : String) (v : β) (h : (l.map Prod.fst).Nodup) :
+    ((alSet l k v).map Prod.fst).Nodup := by
+  simp only [alSet, List.map_cons, List.nodup_cons]
+  refine ⟨?_, List.Nodup.sublist (List.Sublist.map _ (List.filter_sublist)) h⟩
+  simp [List.mem_map, List.mem_filter]
+
+theorem alErase_keys_nodup {β} (l : List (String × β)) (k : String) (h : (l.map Prod.fst).Nodup) :
+    ((alErase l k).map Prod.fst).Nodup :=
+  List.Nodup.sublist (List.Sublist.map _ (List.filter_sublist)) h
+
+theorem subsOK_step (st : RSt) (s : RStep) (h : SubsOK st) : SubsOK (st.step s).1 := by
+  intro c subs hc
+  cases s with
+  | subscribe c0 s0 fs =>
+    simp only [RSt.step] at hc
+    by_cases hcc : c = c0
+    · subst hcc
+      rw [nGet_nSet_self] at hc
+      cases hc
+      cases hg : nGet st.reg c with
+      | none => simp [hg, alSet]
+      | some old => simp only [hg, Option.getD_some]; exact alSet_keys_nodup old s0 fs (h c old hg)
+    · rw [nGet_nSet_ne _ _ _ _ hcc] at hc; exact h c subs hc
+  | unsubscribe c0 s0 =>
+    simp only [RSt.step] at hc
+    cases hg : nGet st.reg c0 with
+    | none => simp only [hg] at hc; exact h c subs hc
+    | some old =>
+      simp only [hg] at hc
+      by_cases hcc : c = c0
+      · subst hcc
+        rw [nGet_nSet_self] at hc
+        cases hc
+        exact alErase_keys_nodup old s0 (h c old hg)
+      · rw [nGet_nSet_ne _ _ _ _ hcc] at hc; exact h c subs hc
+  | unsubAll c0 =>
+    simp only [RSt.step] at hc
+    by_cases hcc : c = c0
+    · subst hcc; rw [nGet_nErase_self] at hc; cases hc
+    · rw [nGet_nErase_ne _ _ _ hcc] at hc; exact h c subs hc
+  | pubBegin p e => simp only [RSt.step] at hc; exact h c subs hc
+  | visit p c0 =>
+    have hreg : (st.step (.visit p c0)).1.reg = st.reg := by
+      simp only [RSt.step]
+      cases nGet st.pubs p with
+      | none => rfl
+      | some pb =>
+        simp only []
+        cases matched ((nGet st.reg c0).getD []) pb.e <;> rfl
+    rw [hreg] at hc; exact h c subs hc
+  | pubEnd p => simp only [RSt.step] at hc; exact h c subs hc
+  | deq c0 =>
+    have hreg : (st.step (.deq c0)).1.reg = st.reg := by
+      simp only [RSt.step]
+      cases (nGet st.q c0).getD [] <;> rfl
+    rw [hreg] at hc; exact h c subs hc
+
+/-- **C07, exactly once.**  What a completed publish owes a connection contains `EVENT s e` exactly once for each
+    of its subscriptions `(s, fs)` whose filters match, and not at all otherwise; nothing else is owed. -/
+theorem owed_count (st : RSt) (hok : SubsOK st) (c : Conn) (e : Event) (s : String) (fs : List Filter)
+    (hmem : (s, fs) ∈ (nGet st.reg c).getD []) :
+    (owedTo st c e).count (.event s e) = if nip01MatchAnyB fs e then 1 else 0 := by
+  cases hg : nGet st.reg c with
+  | none => simp [hg] at hmem
+  | some subs =>
+    have hnd := hok c subs hg
+    simp only [hg, Option.getD_some] at hmem
+    simp only [owedTo, hg, Option.getD_some]
+    clear hg
+    induction subs with
+    | nil => cases hmem
+    | cons x xs ih =>
+      obtain ⟨xs', xfs⟩ := x
+      simp only [List.map_cons, List.nodup_cons] at hnd
+      rcases List.mem_cons.1 hmem with heq | hin
+      · cases heq
+        -- the rest of the list has no entry with id s
+        have hrest : (xs.filterMap fun q => if nip01MatchAnyB q.2 e then some (ServerMsg.event q.1 e) else none).count (.event s e) = 0 := by
+          rw [List.count_eq_zero]
+          intro hm
+          simp only [List.mem_filterMap] at hm
+          obtain ⟨q, hq, hqe⟩ := hm
+          split at hqe
+          · cases hqe; exact hnd.1 (List.mem_map.2 ⟨q, hq, rfl⟩)
+          · cases hqe
+        simp only [List.filterMap_cons]
+        cases hm : nip01MatchAnyB fs e
+        · simp [hrest]
+        · simp [hrest]
+      · have hne : xs' ≠ s := fun h => hnd.1 (h ▸ List.mem_map.2 ⟨(s, fs), hin, rfl⟩)
+        simp only [List.filterMap_cons]
+        cases hm : nip01MatchAnyB xfs e
+        · simpa using ih hnd.2 hin
+        · simp only [if_true]
+          rw [List.count_cons_of_ne (by intro h; cases h; exact hne rfl)]
+          exact ih hnd.2 hin
+
+/-- every owed message is `EVENT s e` for a registered, matching subscription of that connection -/
+theorem owed_sound (st : RSt) (c : Conn) (e : Event) (m : ServerMsg) (h : m ∈ owedTo st c e) :
+    ∃ s fs, (s, fs) ∈ (nGet st.reg c).getD [] ∧ m = .event s e ∧ nip01MatchAnyB fs e = true := by
+  simp only [owedTo, List.mem_filterMap] at h
+  obtain ⟨⟨s, fs⟩, hin, hq⟩ := h
+  by_cases hm : nip01MatchAnyB fs e = true
+  · simp [hm] at hq; exact ⟨s, fs, hin, hq.symm, hm⟩
+  · simp [hm] at hq
+
 end Moc.C07
